@@ -54,7 +54,7 @@ func runC17Keeper(c *Ctx) {
 		crash := safeCall(func() {
 			xid, _ = InGlobalTx(cid, func(ctx context.Context) error {
 				// (nothing here may wait for ever)
-				ctx, stop := context.WithTimeout(ctx, 30*time.Second)
+				ctx, stop := context.WithTimeout(ctx, 60*time.Second)
 				defer stop()
 				conn, cerr := xa.Conn(ctx)
 				if cerr != nil {
@@ -89,7 +89,7 @@ func runC17Keeper(c *Ctx) {
 					case op == "t":
 						// the hold time of a prepared branch is one second, the checker looks once a second
 						before := w.Eng.SessionCount()
-						for k := 0; k < 30 && w.Eng.SessionCount() >= before; k++ {
+						for k := 0; k < 150 && w.Eng.SessionCount() >= before; k++ { // (up to 15 s: the checker ticks once a second, on a loaded machine later)
 							time.Sleep(100 * time.Millisecond)
 						}
 						if w.Eng.SessionCount() < before {
